@@ -880,7 +880,7 @@ fn generate(cfg: &GenCfg, rng: &mut Rng, w: &mut dyn Write) {
 
     // --- E: ite over one-variable functions on up to three different variables, all 6 orders
     let orders3: [[u32; 3]; 6] = [[0, 1, 2], [0, 2, 1], [1, 0, 2], [1, 2, 0], [2, 0, 1], [2, 1, 0]];
-    let n_e = if thorough { 6000 * scale } else { 1200 * scale };
+    let n_e = if thorough { 30000 * scale } else { 1200 * scale };
     for (oi, ord) in orders3.iter().enumerate() {
         g.start(&format!("ite111-o{}", oi), 3, ord);
         g.one_var("a", 0);
@@ -901,7 +901,7 @@ fn generate(cfg: &GenCfg, rng: &mut Rng, w: &mut dyn Write) {
     }
 
     // --- F: sampled pairs / triples of the 3^9 two-variable functions: all operators, ite, not
-    let n_f = if thorough { 20000 * scale } else { 1500 * scale };
+    let n_f = if thorough { 50000 * scale } else { 1500 * scale };
     let per_case = 250;
     let mut done = 0;
     let mut ci = 0;
@@ -962,7 +962,7 @@ fn generate(cfg: &GenCfg, rng: &mut Rng, w: &mut dyn Write) {
     }
 
     // --- G: random functions of three and four variables under random orders
-    let n_g = if thorough { 300 * scale } else { 40 * scale };
+    let n_g = if thorough { 1200 * scale } else { 40 * scale };
     for ci in 0..n_g {
         let nv = 3 + (ci % 2) as u32;
         let mut ord: Vec<u32> = (0..nv).collect();
